@@ -525,7 +525,11 @@ func (st *c18State) timeTravel(s *scn.Scn) (int, error) {
 // final is the end-of-history oracle; returns the outcome class.
 func (st *c18State) final(s *scn.Scn, tt bool) (string, error) {
 	if st.f == nil {
-		return "no-vfs/" + shapeClass(s), nil
+		// A history without VOPEN ends with an open: every reachable replica state is an open point.
+		st.at = "final-VOPEN"
+		if !st.do(s, "VOPEN") || st.f == nil {
+			return "no-vfs/" + shapeClass(s), nil
+		}
 	}
 	st.at = "final-VPOLL"
 	st.poll(s, "VPOLL")
@@ -573,6 +577,9 @@ type c18Check struct {
 	hmu            sync.Mutex
 	unconfirmed    int
 	unconfirmedMsg string
+	notes          map[string]int // outcome notes -> number of executions showing them
+	pagesCompared  int64
+	comparisons    int64
 }
 
 func (hc *c18Check) exec(l c18Layer, hist []string) (legal bool, probs []*scn.Problem, outcome, key string, trace []string, err error) {
@@ -599,6 +606,16 @@ func (hc *c18Check) exec2(l c18Layer, hist []string) (legal bool, probs []*scn.P
 	}
 	key = s.Key() + st.key()
 	outcome, err = st.final(s, l.TT)
+	hc.hmu.Lock()
+	if hc.notes == nil {
+		hc.notes = map[string]int{}
+	}
+	for n := range st.notes {
+		hc.notes[n]++
+	}
+	hc.pagesCompared += int64(st.pages)
+	hc.comparisons += int64(st.checks)
+	hc.hmu.Unlock()
 	return true, st.probs, st.ats, outcome, key, s.Trace, err
 }
 
@@ -714,6 +731,9 @@ func (hc *c18Check) runLayers(layers []c18Layer, budget time.Duration, assumptio
 			"layers":                        reports,
 			"known_finding_reproductions":   hc.rep.KnownCount(),
 			"top_outcomes":                  total.OutcomeList(12),
+			"outcome_notes":                 hc.notes,
+			"view_comparisons":              hc.comparisons,
+			"pages_compared":                hc.pagesCompared,
 		},
 	}
 	if err := ev.Write(e); err != nil {
